@@ -911,4 +911,79 @@ theorem roundTrip_spec (fmt : Format) (d : Dataset) (sel : Option (List Bool)) (
   roundTripVia_spec (channelOf fmt) fmt d sel comps hP (channelOf_faithful fmt d sel comps hP)
 
 
+/-! ## the export plan: order and membership -/
+
+/-- is component number `i` requested? -/
+def requested (comps : Option (List Nat)) (i : Nat) : Bool :=
+  match comps with
+  | none => true
+  | some cs => cs.contains i
+
+/-- the requested non-derived / derived components, in dataset order -/
+def planPart (d : Dataset) (comps : Option (List Nat)) (der : Bool) : List Column :=
+  (d.cols.zipIdx.filter fun p => p.1.derived == der && requested comps p.2).map (·.1)
+
+theorem plan_eq_parts (d : Dataset) (comps : Option (List Nat)) :
+    plan d comps = planPart d comps false ++ planPart d comps true := by
+  simp only [plan, planPart, List.filter_append, List.filter_filter, List.map_append]
+  congr 2
+  · apply List.filter_congr
+    intro p _
+    cases comps <;> cases p.1.derived <;> simp [requested]
+  · apply List.filter_congr
+    intro p _
+    cases comps <;> cases p.1.derived <;> simp [requested]
+
+theorem planPart_sublist (d : Dataset) (comps : Option (List Nat)) (der : Bool) :
+    (planPart d comps der).Sublist d.cols := by
+  unfold planPart
+  have h := (List.filter_sublist (l := d.cols.zipIdx)
+    (p := fun p => p.1.derived == der && requested comps p.2)).map Prod.fst
+  rwa [List.zipIdx_map_fst] at h
+
+theorem planPart_derived (d : Dataset) (comps : Option (List Nat)) (der : Bool) :
+    ∀ c ∈ planPart d comps der, c.derived = der := by
+  intro c hc
+  simp only [planPart, List.mem_map, List.mem_filter, Bool.and_eq_true, beq_iff_eq] at hc
+  obtain ⟨p, ⟨_, hd, _⟩, rfl⟩ := hc
+  exact hd
+
+theorem mem_plan_iff (d : Dataset) (comps : Option (List Nat)) (c : Column) :
+    c ∈ plan d comps ↔ ∃ i, d.cols[i]? = some c ∧ requested comps i = true := by
+  rw [plan_eq_parts]
+  simp only [planPart, List.mem_append, List.mem_map, List.mem_filter, Bool.and_eq_true, beq_iff_eq]
+  constructor
+  · rintro (⟨p, ⟨hp, _, hr⟩, rfl⟩ | ⟨p, ⟨hp, _, hr⟩, rfl⟩) <;>
+      exact ⟨p.2, List.mem_zipIdx_iff_getElem?.1 hp, hr⟩
+  · rintro ⟨i, hi, hr⟩
+    have hp : (c, i) ∈ d.cols.zipIdx := List.mem_zipIdx_iff_getElem?.2 hi
+    cases hd : c.derived
+    · exact Or.inl ⟨(c, i), ⟨hp, hd, hr⟩, rfl⟩
+    · exact Or.inr ⟨(c, i), ⟨hp, hd, hr⟩, rfl⟩
+
+theorem plan_congr (d : Dataset) (cs cs' : List Nat) (h : ∀ i, cs.contains i = cs'.contains i) :
+    plan d (some cs) = plan d (some cs') := by
+  simp only [plan]
+  congr 1
+  apply List.filter_congr
+  intro p _
+  exact h p.2
+
+/-! ## `autotyped` on numeric-looking text -/
+
+theorem autotyped_numeric_text (n : Str) (cells : List Cell) (hne : cells ≠ [])
+    (h : ∀ c ∈ cells, numericCell c = true) :
+    (autotyped n .str cells).cat = false ∧ (autotyped n .str cells).cells = cells.map coerce := by
+  have hl := finiteCount_eq_length cells h
+  have hpos : 0 < cells.length := List.length_pos_iff.2 hne
+  have : ¬ (cells.length ≠ 0 ∧ 2 * finiteCount cells ≤ cells.length) := by
+    rw [hl]; omega
+  unfold autotyped
+  simp only [if_neg this, and_self]
+
+theorem blankClause_of_not_image (fmt : Format) (d : Dataset) (sel : Option (List Bool))
+    (comps : Option (List Nat)) (h : fmt ≠ .fitsImage) : blankClause fmt d sel comps = true := by
+  cases sel <;> simp [blankClause, h]
+
+
 end GlueVerif.Export.Lemmas
